@@ -124,6 +124,7 @@ func c05R2b(c *Ctx, r *Report) {
 		r.fn(name)
 		var problems []string
 		found := 0
+		var wide []*ssa.Call
 		allInstrs(fn, func(in ssa.Instruction) {
 			call, ok := in.(*ssa.Call)
 			if !ok {
@@ -152,8 +153,46 @@ func c05R2b(c *Ctx, r *Report) {
 				}
 			case "strconv.Atoi":
 				found++
+				wide = append(wide, call)
+			}
+			if (cn == "strconv.ParseUint" || cn == "strconv.ParseInt") && len(args) == 3 {
+				if bits, ok := constIntOf(args[2]); ok && (bits == 0 || bits > 16) {
+					wide = append(wide, call)
+				}
 			}
 		})
+		// a parse wider than the field: the guards on the way to a success return must let through exactly 0..65535
+		for _, call := range wide {
+			var val ssa.Value
+			for _, ref := range *call.Referrers() {
+				if ex, ok := ref.(*ssa.Extract); ok && ex.Index == 0 {
+					val = ex
+				}
+			}
+			if val == nil {
+				continue
+			}
+			isVal := func(v ssa.Value) bool { return v == val }
+			for _, rp := range returnPoints(fn, 1) {
+				if b, ok := constBool(rp.Results[1]); !ok || !b {
+					continue
+				}
+				lo, hi, hasLo, hasHi := intervalAt(fn, rp.Block, isVal)
+				signed := calleeNameSSA(call.Common()) != "strconv.ParseUint"
+				switch {
+				case !hasHi:
+					problems = append(problems, fmt.Sprintf("%s: the number is parsed wider than 16 bits and no upper bound is tested before it is narrowed: TYPE65536 is read as code 0", c.pos(rp.Pos)))
+				case hi != 65535:
+					problems = append(problems, fmt.Sprintf("%s: the largest number accepted is %d, the field goes up to 65535", c.pos(rp.Pos), hi))
+				}
+				switch {
+				case signed && !hasLo:
+					problems = append(problems, fmt.Sprintf("%s: a signed parse without a lower bound: a negative number is narrowed into a code", c.pos(rp.Pos)))
+				case hasLo && lo != 0:
+					problems = append(problems, fmt.Sprintf("%s: the smallest number accepted is %d, but code 0 is a code like any other (a record of type 0 prints as TYPE0)", c.pos(rp.Pos), lo))
+				}
+			}
+		}
 		if found == 0 {
 			r.undecided("C05.R2.generic-range", name, c.pos(fn.Pos()), "%s does not parse its number through strconv.ParseUint / ParseInt / Atoi; the accepted range cannot be determined", name)
 			continue
